@@ -846,7 +846,7 @@ def twin(tier, seed):
             samples.append({'phase': phase, 'snapshot': hist['snapshot'], 'events': hist['events'][:12]})
 
     # ---- A. exhaustive, small scope: every history Tor can emit, empty snapshot
-    scopes = [(1, 1, 2, 6), (2, 1, 1, 4), (1, 2, 1, 4)] if quick else [(1, 1, 2, 9), (2, 1, 1, 6), (1, 2, 1, 6), (2, 2, 1, 4)]
+    scopes = [(1, 1, 2, 6), (2, 1, 1, 4), (1, 2, 1, 4)] if quick else [(1, 1, 2, 8), (2, 1, 1, 6), (1, 2, 1, 6), (2, 2, 1, 4)]
     for nc, ns, hops, depth in scopes:
         base = TorModel(CIRC_IDS[:nc], STREAM_IDS[:ns], hops, z=seed, first_sight=False)
         for seq in all_histories(base, depth):
@@ -868,7 +868,7 @@ def twin(tier, seed):
             run({'snapshot': snap, 'events': _walk(m, 12, rnd, cov)}, 'B-snapshot+tour')
 
     # ---- C. transition-coverage tours from the empty snapshot (ids reused after close, zombies, ...)
-    for nc, ns, hops, count in ([(2, 2, 2, 500), (3, 3, 2, 400)] if quick else [(2, 2, 2, 8000), (3, 3, 2, 15000), (3, 3, 3, 6000)]):
+    for nc, ns, hops, count in ([(2, 2, 2, 500), (3, 3, 2, 400)] if quick else [(2, 2, 2, 6000), (3, 3, 2, 10000), (3, 3, 3, 4000)]):
         cov = covered.setdefault((nc, ns, hops), set())
         for _ in range(count):
             m = TorModel(CIRC_IDS[:nc], STREAM_IDS[:ns], hops, z=rnd.getrandbits(40))
@@ -876,7 +876,7 @@ def twin(tier, seed):
 
     # ---- D. seeded long histories, full population, random snapshot first
     cfgs = snapshot_configs(3, 3)
-    for _ in range(60 if quick else 4000):
+    for _ in range(60 if quick else 2500):
         m = TorModel(CIRC_IDS, STREAM_IDS, 3, z=rnd.getrandbits(40))
         cc, sc = rnd.choice(cfgs)
         m.setup(cc, sc)
